@@ -125,3 +125,10 @@ Proof.
   intros [Hd A] Hi Hx E. destruct (rch_remove_min_is_min s (Some n) s' Hd Hi Hx E) as (x & Hn & Hpos & _).
   exists x. split; [done|]. destruct (A n x Hn Hpos) as [|Hin]; [done|]. by apply elem_of_nil in Hin.
 Qed.
+
+(* ---- heights stay within the limit (all builds, up to the first failing operation) *)
+From Incr.Proofs Require Import HeightLimit FrameHeightLimit.
+
+Lemma history_height_limit fuel N dbg ops : (0 <= N)%Z ->
+  while_ok (run_history fuel N dbg ops) HL.
+Proof. intros HN. unfold run_history. apply run_height_limit. by apply HL_init. Qed.
